@@ -5,8 +5,8 @@
 package fbb
 
 import (
-	"bufio"
 	"bytes"
+	"strings"
 
 	"github.com/paulrosania/go-charset/charset"
 	_ "github.com/paulrosania/go-charset/data"
@@ -17,18 +17,24 @@ import (
 // CRLF line break is enforced.
 // Line break are inserted if a line is longer than 1000 characters (including CRLF).
 func StringToBody(str, encoding string) ([]byte, error) {
-	in := bufio.NewScanner(bytes.NewBufferString(str))
 	out := new(bytes.Buffer)
 
 	var err error
-	var line []byte
-	for in.Scan() {
-		line = in.Bytes()
+	for len(str) > 0 {
+		// Split on LF (dropping a trailing CR). A bufio.Scanner can't be used here, it gives up on lines longer than 64 KiB.
+		var line string
+		if i := strings.IndexByte(str, '\n'); i >= 0 {
+			line, str = str[:i], str[i+1:]
+		} else {
+			line, str = str, ""
+		}
+		line = strings.TrimSuffix(line, "\r")
+
 		for {
 			// Lines can not be longer that 1000 characters including CRLF.
 			n := min(len(line), 1000-2)
 
-			out.Write(line[:n])
+			out.WriteString(line[:n])
 			out.WriteString("\r\n")
 
 			line = line[n:]
